@@ -11,9 +11,10 @@ import hashlib
 import os
 import sys
 
-from lib import codec, gen, vf
+from lib import codec, gen, v3replay, vf
 
 sys.path.insert(0, os.path.join(vf.VERIF, "harness", "py"))
+import ber  # noqa: E402
 import scen  # noqa: E402
 
 ALGN = {1: "md5", 2: "sha1"}
@@ -48,9 +49,10 @@ def main(argv):
     lines = ["p2m %d %s" % (alg, pw.hex()) for pw in pws for alg in (1, 2)]
     lines += ["p2m 1 -", "p2m 2 -"]          # the raw function divides by the password length (callers must refuse first)
     lines_p2m = lines
-    lines_keys, calls, sess, short_pw = build_key_cases(rng, thorough)
+    lines_keys, calls, sess, short_pw, socks, users = build_key_cases(rng, thorough)
     py_lines = [("pymaster %d %s" % (a[1], a[2] or "-")) if a[0] == "master" else ("pylocalized %d %s %s" % (a[1], a[2] or "-", a[3] or "-")) for a in calls]
     model_prefetch(lines_p2m + lines_keys + py_lines)
+    c.log("model hashing done")
     mo = model_run(lines)
     ro = vf.run_lines(cd.rel, lines, shards=4)
     for ln, ml, rl in zip(lines, mo, ro):
@@ -76,6 +78,7 @@ def main(argv):
     # ---- localisation, key-type dispatch, malformed material (fast)
     lines = lines_keys
     mo = model_run(lines)
+    codec.crosscheck_v3(c, lines, mo)
     ro = vf.run_lines(cd.rel, lines)
     do = vf.run_lines(cd.dbg, lines)
     for ln, ml, rl, dl in zip(lines, mo, ro, do):
@@ -113,7 +116,9 @@ def main(argv):
                 c.violation("as_key_type(%s, type bits %#x, %d-octet key) = %s, expected %s" % (ALGN[alg], kt, len(key), rl[:50], want[:50]),
                             {"cmd": ln, "expected": want, "observed": rl}, key="keytype:%#x" % kt)
     # ---- the functions exposed to Python and the keys a session really uses
-    res, log = vf.run_api_worker("C12", {"calls": calls, "sessions": sess})
+    c.log("key cases compared")
+    res, log = vf.run_api_worker("C12", {"calls": calls, "sessions": sess, "sockets": socks, "users": users})
+    c.log("API worker done")
     if res is None:
         c.errors.append("API worker failed: " + log[-1500:])
     else:
@@ -149,6 +154,8 @@ def main(argv):
             elif out.get("mac_ok") is False:
                 c.violation("a session configured with a %s %s key signs with a different key than RFC 3414 A.2 derives" % (s["alg"], ["password", "master", "localized"][s["kt"]]),
                             {"session": s, "outcome": out}, key="session-key")
+        dis += socket_part(c, v3exe, socks, res.get("sockets", []))
+        dis += user_part(c, v3exe, users, res.get("users", []))
     c.assumptions += ["the Gallina MD5 / SHA-1 are validated on the RFC 1321 / FIPS 180 vectors inside Coq (Model/Crypto/HashVectors.v) and here against the md-5 / sha1 crates"]
     return c.finish(
         rule="password -> master key for passwords of length %s octets x {MD5, SHA-1} (each a 1 MiB digest in the extracted Gallina hash) incl. the "
@@ -157,6 +164,139 @@ def main(argv):
              "localized keys of aligned and unaligned sizes whose first request is verified under the independently derived key; "
              "non-trivial = password length not dividing 2^20" % lens,
         extra={"disagreements": dis})
+
+
+def user_spec(u):
+    """scenario user -> the model's user spec name:aalg:akt:akey:palg:pkt:pkey"""
+    a, p = u.get("auth"), u.get("priv")
+    return "%s:%s:%s" % (u["user"].encode().hex() or "-",
+                         "%d:%d:%s" % ({"md5": 1, "sha1": 2}[a[0]], a[1], a[2] or "-") if a else "0:0:-",
+                         "%d:%d:%s" % ({"des": 1, "aes": 2}[p[0]], p[1], p[2] or "-") if p else "0:0:-")
+
+
+def user_part(c, v3exe, users, outs):
+    """user.py: what a User hands to the socket (algorithm codes with the key-type mask, keys aligned to the auth key
+    length) against Model.Session (user_auth_alg, user_auth_key, user_priv_alg, user_priv_key, require_auth), and against
+    the documented rule stated independently here."""
+    dis = 0
+    mo = vf.run_lines(v3exe, ["pyuser " + user_spec(u) for u in users], shards=1)
+    for u, o, m in zip(users, outs, mo):
+        c.count(("user", user_spec(u)), True)
+        if o != m:
+            dis += 1
+            c.log("model/impl disagree on User %s: model %s impl %s" % (user_spec(u), m, o))
+            if not any(b.startswith("correspondence") for b in c.broken):
+                c.broken = list(c.broken) + ["correspondence User(%s): model `%s` impl `%s`" % (user_spec(u), m, o)]
+        a, p = u.get("auth"), u.get("priv")
+        ks = {"md5": 16, "sha1": 20}[a[0]] if a else 0
+        al = lambda k, kt: (bytes.fromhex(k)[:ks] + bytes(max(0, ks - len(bytes.fromhex(k))))) if kt in (1, 2) else bytes.fromhex(k)
+        want = "OK %d %s %d %s %d" % (({"md5": 1, "sha1": 2}[a[0]] | (a[1] << 6)) if a else 0, (al(a[2], a[1]).hex() or "-") if a else "-",
+                                      ({"des": 1, "aes": 2}[p[0]] | (p[1] << 6)) if p else 0, (al(p[2], p[1]).hex() or "-") if p else "-", 1 if a else 0)
+        if o != want:
+            c.violation("User(%s) hands the socket %s; master and localized keys are aligned to the %d-octet key length, passwords pass unchanged: expected %s"
+                        % (user_spec(u), o, ks, want), {"user": u, "observed": o, "expected": want}, key="user-key-material")
+    return dis
+
+
+def socket_part(c, v3exe, socks, outs):
+    """SnmpV3ClientSocket itself (constructor and set_keys) for engine ids of 0..32 octets: the first request must be the
+    datagram Model.V3 (v3_new / v3_set_keys + v3_push_pdu) emits, signed under the key RFC 3414 A.2 derives (hmac/hashlib),
+    and malformed key material must be refused with ValueError."""
+    import hmac as _hmac
+    dis = 0
+    qs = []
+    emits = []
+
+    def mkey(s):
+        """(alg code, key) handed to the model: a password is expanded here with hashlib (the model's own expansion is
+        compared on the p2m / keytype lines above; repeating a 1 MiB Gallina digest per socket would only cost time)."""
+        if s["aalg"] & 0xC0 == 0 and s["akey"]:
+            return (s["aalg"] & 63) | 64, scen.rfc_password_to_master(ALGN[s["aalg"] & 63], bytes.fromhex(s["akey"])).hex()
+        return s["aalg"], s["akey"]
+    for s, o in zip(socks, outs):
+        d = o.get("datagram")
+        m = None
+        if d:
+            try:
+                m = ber.s_message(bytes.fromhex(d))
+            except ber.Strict:
+                m = None
+        seed = 0
+        if m and m.get("priv"):
+            seed = int.from_bytes(m["priv"][4:] if (s["palg"] & 63) == 1 else m["priv"], "big")
+        new = "v3new %s %s %d %s %d %s %d" % ((s["engine"] or "-", s["user"].encode().hex() or "-") + (mkey(s)[0], mkey(s)[1] or "-") + (s["palg"], s["pkey"] or "-", seed))
+        if s["via"] == "set_keys":
+            new = "v3new %s - 0 - 0 - 0" % (s["engine"] or "-")
+        qs.append(new)
+    r1 = vf.run_lines(v3exe, qs, shards=16)
+    q2 = []
+    for s, o, r in zip(socks, outs, r1):
+        if s["via"] == "set_keys" and r.startswith("OK "):
+            d = o.get("datagram")
+            seed = 0
+            if d:
+                try:
+                    m = ber.s_message(bytes.fromhex(d))
+                    if m.get("priv"):
+                        seed = int.from_bytes(m["priv"][4:] if (s["palg"] & 63) == 1 else m["priv"], "big")
+                except ber.Strict:
+                    pass
+            q2.append("v3setkeys %s %s %d %s %d %s %d" % ((r[3:], s["user"].encode().hex() or "-") + (mkey(s)[0], mkey(s)[1] or "-") + (s["palg"], s["pkey"] or "-", seed)))
+        else:
+            q2.append(None)
+    r2 = vf.run_lines(v3exe, [q for q in q2 if q], shards=16)
+    it = iter(r2)
+    r1 = [next(it) if q else r for q, r in zip(q2, r1)]
+    for s, o, r in zip(socks, outs, r1):
+        alg = s["aalg"] & 63
+        kt = s["aalg"] & 0xC0
+        key, eng = bytes.fromhex(s["akey"]), bytes.fromhex(s["engine"])
+        c.count(("socket", s["via"], s["aalg"], s["palg"], len(eng), len(key), s["akey"][:16]), True)
+        valid = (kt == 0 and len(key) > 0) or (kt in (64, 128) and len(key) == KS[alg])
+        label = "SnmpV3ClientSocket (%s) %s key type %#x, %d-octet key, %d-octet engine id" % (s["via"], ALGN[alg], kt, len(key), len(eng))
+        if o.get("exc", "").startswith("PANIC"):
+            c.violation(label + ": surfaced a Rust panic", {"socket": s, "outcome": o}, key="socket-panic")
+            continue
+        if not valid:
+            if o.get("exc") != "ValueError":
+                c.violation(label + ": malformed key material was not refused with ValueError (%s)" % (o.get("exc") or "accepted"), {"socket": s, "outcome": o}, key="socket-accepts-malformed")
+            if not r.startswith("ERR InvalidKey"):
+                dis += 1
+                c.broken = list(c.broken) + ["correspondence (socket): model accepts malformed key material: %s" % r[:80]]
+            continue
+        if "exc" in o or not o.get("datagram"):
+            c.violation(label + ": valid key material refused or nothing sent (%s)" % o.get("exc"), {"socket": s, "outcome": o}, key="socket-refuses-valid")
+            continue
+        d = bytes.fromhex(o["datagram"])
+        try:
+            m = ber.s_message(d)
+        except ber.Strict as e:
+            c.violation(label + ": first request malformed: %s" % e, {"socket": s, "outcome": o}, key="socket-malformed")
+            continue
+        lk = scen.localized_key(ALGN[alg], {0: 0, 64: 1, 128: 2}[kt], key, eng)
+        off = m["auth_offset"]
+        want = _hmac.new(lk, d[:off] + bytes(12) + d[off + 12:], ALGN[alg]).digest()[:12] if off else None
+        if not m["flags"] & 1 or m["auth"] != want:
+            c.violation(label + ": the first request is not signed under the key RFC 3414 A.2 derives (MAC %s, expected %s, flags %d)"
+                        % (m["auth"].hex(), want and want.hex(), m["flags"]), {"socket": s, "datagram": o["datagram"]}, key="socket-key")
+        # model: same datagram octet for octet (ids from the wire)
+        if r.startswith("OK ") and "pdu" in m:
+            rid = m["pdu"]["request_id"]
+            emits.append(("v3emit %s get:%d:2b0601 %d" % (v3replay.with_fields(r[3:], rid=rid), rid, m["msg_id"]), s, o["datagram"]))
+        elif r.startswith("OK ") and "encrypted" in m:
+            pass        # encrypted first requests are compared by C03 / C11 (the request id is inside the ciphertext)
+        elif not r.startswith("OK "):
+            dis += 1
+            c.broken = list(c.broken) + ["correspondence (socket): model refuses valid key material %s: %s" % (s, r[:80])]
+    eo = vf.run_lines(v3exe, [q for q, _s, _d in emits], shards=8) if emits else []
+    for (q, s, d), e in zip(emits, eo):
+        if e.split(" ")[:2] != ["OK", d]:
+            dis += 1
+            if not any(b.startswith("correspondence") for b in c.broken):
+                c.broken = list(c.broken) + ["correspondence (socket %s): model emits `%s`, the socket emitted `%s`" % (s, e[:120], d[:120])]
+    c.coverage["socket_datagrams_reproduced_by_model"] = len(emits)
+    c.coverage["sockets"] = len(socks)
+    return dis
 
 
 def build_key_cases(rng, thorough):
@@ -193,7 +333,31 @@ def build_key_cases(rng, thorough):
             for n in ([1, 8, KS[aalg] - 1, KS[aalg], KS[aalg] + 5] if kt else [1, 8, 33]):
                 sess.append({"alg": alg, "kt": kt, "key": gen.rbytes(rng, n, False).hex(), "engine": gen.rbytes(rng, rng.randint(5, 32), False).hex()})
 
-    return lines, calls, sess, short_pw
+    socks = []
+    for alg in (1, 2):
+        for elen in (0, 0, 1, 5, 12, 32):
+            for kt in (64, 128, 0):
+                for via in ("ctor", "set_keys"):
+                    if kt == 0 and not (thorough or elen in (0, 12)):
+                        continue
+                    good = rng.random() < 0.8
+                    klen = (KS[alg] if good else rng.choice([0, 1, KS[alg] - 1, KS[alg] + 1])) if kt else (rng.choice([8, 10, 33]) if good else 0)
+                    palg = rng.choice([0, 0, 1, 2])
+                    pkt = rng.choice([64, 128]) if palg else 0
+                    socks.append({"engine": gen.rbytes(rng, elen, False).hex(), "user": "u" * rng.choice([0, 1, 8]), "via": via,
+                                  "aalg": alg | kt, "akey": gen.rbytes(rng, klen, False).hex(),
+                                  "palg": (palg | pkt) if palg else 0, "pkey": gen.rbytes(rng, KS[alg], False).hex() if palg else ""})
+    users = []
+    for auth in (None, "md5", "sha1"):
+        for akt in ((0, 1, 2) if auth else (0,)):
+            for priv in ((None, "des", "aes") if auth else (None,)):
+                for pkt in ((0, 1, 2) if priv else (0,)):
+                    for _r in range(3 if thorough else 1):
+                        ks = {"md5": 16, "sha1": 20}.get(auth, 16)
+                        users.append({"user": "n" * rng.choice([0, 1, 5, 32]),
+                                      "auth": [auth, akt, gen.rbytes(rng, rng.choice([1, 8, ks - 1, ks, ks + 1, 40]), False).hex()] if auth else None,
+                                      "priv": [priv, pkt, gen.rbytes(rng, rng.choice([1, 8, ks - 1, ks, ks + 1, 40]), False).hex()] if priv else None})
+    return lines, calls, sess, short_pw, socks, users
 
 
 def api_main(g, job):
@@ -237,4 +401,36 @@ def api_main(g, job):
         finally:
             agent.close()
         out_sess.append(rec)
-    return {"calls": out_calls, "sessions": out_sess}
+    out_users = []
+    for u in job.get("users", []):
+        try:
+            usr = scen.make_user(g, u)
+            out_users.append("OK %d %s %d %s %d" % (usr.get_auth_alg(), usr.get_auth_key().hex() or "-", usr.get_priv_alg(), usr.get_priv_key().hex() or "-", 1 if usr.require_auth() else 0))
+        except BaseException as e:  # noqa: BLE001
+            out_users.append("EXC " + apilib.exc_class(e))
+    out_socks = []
+    import time as _time
+    for s in job.get("sockets", []):
+        rec = {}
+        agent = apilib.Agent(None)
+        try:
+            eng, user = bytes.fromhex(s["engine"]), s["user"]
+            mk = lambda *a: g.fast.SnmpV3ClientSocket("127.0.0.1:%d" % agent.port, *a, 0, 0, 0, 50_000_000)
+            if s["via"] == "ctor":
+                sock = mk(eng, user, s["aalg"], bytes.fromhex(s["akey"]), s["palg"], bytes.fromhex(s["pkey"]))
+            else:
+                sock = mk(eng, "", 0, b"", 0, b"")
+                sock.set_keys(user, s["aalg"], bytes.fromhex(s["akey"]), s["palg"], bytes.fromhex(s["pkey"]))
+            sock.send_get("1.3.6.1")
+            for _w in range(60):
+                d = agent.take()
+                if d:
+                    break
+                _time.sleep(0.01)
+            rec["datagram"] = d[0].hex() if d else None
+        except BaseException as e:  # noqa: BLE001
+            rec["exc"] = apilib.exc_class(e)
+        finally:
+            agent.close()
+        out_socks.append(rec)
+    return {"calls": out_calls, "sessions": out_sess, "sockets": out_socks, "users": out_users}
